@@ -30,7 +30,7 @@ def _tbuild_class():
     return _TB
 
 
-def make(spec):
+def _make(spec):
     """Fresh real object for the spec."""
     import scared
     name, prec = spec['name'], spec.get('precision', 'float32')
@@ -66,6 +66,35 @@ def make(spec):
     if name == 'ttacc':
         return scared.TTestThreadAccumulator(precision=np.dtype(prec))
     raise ValueError(name)
+
+
+def make(spec):
+    """Fresh real object for the spec, its update() wrapped by the input monitor: the arrays handed over by the caller must be bit-for-bit
+    what they were when update() returns or raises (a distinguisher works on the caller's data, it does not own it)."""
+    obj = _make(spec)
+    if spec['name'] in ('tstatic', 'tdpa'):
+        return obj
+    inner = obj.update
+
+    def update(traces, data=None, **kw):
+        if 'traces' in kw:
+            traces = kw.pop('traces')
+        if 'data' in kw:
+            data = kw.pop('data')
+        before = tuple(hash(a.tobytes()) if isinstance(a, np.ndarray) and a.nbytes <= 4_000_000 else None for a in (traces, data))
+        try:
+            return inner(traces) if spec['name'] == 'ttacc' else inner(traces, data)
+        finally:
+            after = tuple(hash(a.tobytes()) if isinstance(a, np.ndarray) and a.nbytes <= 4_000_000 else None for a in (traces, data))
+            if before != after:
+                from . import core
+                raise core.Violation('input_modified_by_update', dict(subject=spec['name'], which=['traces', 'data'][0 if before[0] != after[0] else 1],
+                                                                      dtype=str(getattr(traces, 'dtype', None)), shape=list(getattr(traces, 'shape', []))))
+    try:
+        obj.update = update
+    except Exception:
+        pass
+    return obj
 
 
 def make_template_attack(spec, convergence_step=None):
